@@ -242,7 +242,7 @@ def selftest(ctx: Ctx) -> bool:
     tlc.write_json(obs, [good, bad])
     j = tlc.require_ok(tlc.run_tlc("AuthCacheJudge", "AuthCacheJudge.cfg", env={"OBS_FILE": obs}, workers=1), "selftest")
     ok1 = ["ACCEPT", 1] in j.prints and ["DISAGREE", 2, "FetchOnce"] in j.prints
-    hdr = {"carriers": [True] * 8, "user": ["a"] * 8, "applies": [[True] * 8] * 3, "issued": [1]}
+    hdr = {"carriers": [True] * 8, "user": ["a"] * 8, "applies": [[True] * 8] * 4, "issued": [1]}
     tlc.write_json(obs, [{"hdr": hdr, "lines": [{"op": 1, "ph": 4, "vals": ["a"] * 8, "probe": False, "parent": 0},
                                                 {"op": 2, "ph": 4, "vals": ["a"] * 6 + ["x", "a"], "probe": False, "parent": 0},
                                                 {"op": 2, "ph": 4, "vals": ["a"] * 7 + [""], "probe": True, "parent": 1}]}])
